@@ -21,7 +21,7 @@
    No proofs in this file. *)
 From Coq Require Import List NArith Bool Arith.
 Import ListNotations.
-Open Scope N_scope.
+Local Open Scope N_scope.
 
 Section Incr.
   Context {msg info : Type}.
